@@ -478,6 +478,7 @@ class Program:
         # functions the rules do not know (not in tables/known_functions.json) are inlined into their callers: see inline.py
         import inline
         self.inlined = inline.apply(self, self.known_functions)
+        self.flat = 0
         for fid in sorted(self.inlined):
             fb = self.bodies.get(fid)
             if fb is None or not getattr(fb, 'inlined_everywhere', False):
@@ -493,6 +494,9 @@ class Program:
                     c.short = home.short + '::{' + fb.short.rsplit('::', 1)[-1] + '/' + c.id[len(fid) + 3:]
                     c.enclosing = home.id
                     self.by_short[c.short].append(c)
+        if os.environ.get('ASD_FLAT'):
+            # closure view (second opinion run): closures placed where they run, see inline.flatten_closures
+            self.flat = inline.apply_flat(self)
 
     def get(self, short):
         """unique body by short name; raises KeyError (fail closed) if missing or ambiguous."""
